@@ -179,27 +179,39 @@ def fsMain (dir : String) : IO Unit := do
   let compile := fun (g : List UInt8) => match table.find? (fun e => e.1 == g) with
     | some (_, c) => c
     | none => none
+  -- rustfmt as a table: fnv64 of the unformatted text -> formatted file (built by the harness with the real rustfmt)
+  let mut fmtTable : List (String × List UInt8) := []
+  if ← System.FilePath.pathExists (dir ++ "/fmt.txt") then
+    for l in ← IO.FS.lines (dir ++ "/fmt.txt") do
+      match l.splitOn " " with
+      | [h, path] => fmtTable := (h, (← IO.FS.readBinFile path).toList) :: fmtTable
+      | _ => pure ()
+  let fmtT := fmtTable
+  let fmt := fun (b : List UInt8) => match fmtT.find? (fun e => e.1 == hex16 (fnv64 b)) with
+    | some (_, f) => f
+    | none => b
   let hist ← IO.FS.lines (dir ++ "/histories.txt")
   let mut fs : Build.FS := { grammar := none, dest := none, pfx := [] }
   let mut id := ""
   let mut kk := 0
+  let mut format := false
   for l in hist do
     match l.splitOn " " with
-    | ["H", i, _] => id := i; kk := 0; fs := { grammar := none, dest := none, pfx := [] }
+    | ["H", i, m] => id := i; kk := 0; format := (m == "fmt"); fs := { grammar := none, dest := none, pfx := [] }
     | ["G", hx] =>
       let t := if hx == "NONE" then none else (if hx == "-" then some [] else unhex hx.toList)
       fs := (Build.step k compile fs (.editGrammar t)).1
     | ["P", hx] => fs := (Build.step k compile fs (.setPrefix ((if hx == "-" then some [] else unhex hx.toList).getD []))).1
     | ["D"] => fs := (Build.step k compile fs .deleteDest).1
     | ["R"] =>
-      let (fs', out) := Build.step k compile fs .run
+      let (fs', out) := Build.stepF k compile fmt format fs .run
       fs := fs'
       let res := match out with | .ok _ => "OK" | .err => "ERR" | .none => "?"
       let w := match out with | .ok true => "1" | _ => "0"
       let d := match fs.dest with | some b => hex16 (fnv64 b) | none => "NONE"
       let fresh := match fs.grammar with
         | some g => (match compile g with
-          | some code => hex16 (fnv64 (Build.output k g fs.pfx code))
+          | some code => hex16 (fnv64 (if format then fmt (Build.output k g fs.pfx code) else Build.output k g fs.pfx code))
           | none => "UNCOMPILABLE")
         | none => "UNREADABLE"
       IO.println s!"{id} {kk} {res} {d} {w} {fresh}"
